@@ -149,7 +149,18 @@ func NewRateLimitScanner(delegate Scanner, limiter RateLimiter) Scanner {
 }
 
 func (s *rateLimitScanner) Scan(ctx context.Context, r *Request) (Result, error) {
-	s.limiter.Take()
+	// Take can not be interrupted and may sleep for (number of waiting workers) x (rate interval):
+	// wait for it aside, so that a cancelled scan does not have to wait for its slot
+	taken := make(chan struct{})
+	go func() {
+		s.limiter.Take()
+		close(taken)
+	}()
+	select {
+	case <-ctx.Done():
+		return nil, ctx.Err()
+	case <-taken:
+	}
 	return s.Scanner.Scan(ctx, r)
 }
 
